@@ -14,6 +14,7 @@ written here (independent of the model), so a failure is a concrete input."""
 import collections, itertools
 import networkx as nx
 import common, gen
+import gencheck01
 
 LEVEL = "proof"
 EXPLANATION = (
@@ -861,6 +862,7 @@ def run(ctx):
     run_peeling(ctx, ctx.budget(500, 8000))
     run_antichain(ctx, ctx.budget(450, 6000))
     run_cyclic_width(ctx, ctx.budget(120, 2000))
+    gencheck01.run_generated_c17(ctx)      # generated-model tie of stDiGraph.is_scc_edge (coq/gen_proofs)
 
 
 def replay(ctx, body):
